@@ -141,10 +141,16 @@ fn replay_dispatch(beh: &Value) -> Value {
     let ev = ops::exec(&json!({"op": "load", "path": beh["path"]}));
     let a64 = ev["as64"]["ok"].as_bool().unwrap_or(false);
     let a128 = ev["as128"]["ok"].as_bool().unwrap_or(false);
-    if json!(a64) != beh["accept64"] || json!(a128) != beh["accept128"] {
-        return verdict("dispatch", false, "loader acceptance differs", json!([beh["accept64"], beh["accept128"]]), json!([a64, a128]));
+    // the verdict is on what every subcommand does (try u64, then u128); acceptance by the
+    // loader that is never reached is only reported as model drift
+    let disp = |x: bool, y: bool| if x { 64 } else if y { 128 } else { 0 };
+    let want = disp(beh["accept64"].as_bool().unwrap_or(false), beh["accept128"].as_bool().unwrap_or(false));
+    let got = disp(a64, a128);
+    if want != got {
+        return verdict("dispatch", false, "file is read with a different integer width than the model's dispatch", json!(want), json!(got));
     }
-    verdict("dispatch", true, "", Value::Null, Value::Null)
+    let drift = json!(a64) != beh["accept64"] || json!(a128) != beh["accept128"];
+    json!({"ok": true, "kind": "dispatch", "drift": drift})
 }
 
 /// One filter application: {rows:[[km,bases]..], ns, setting:{thr,filter,am,mask,ng}, keep:[[km,bases]..]}
